@@ -286,6 +286,15 @@ func enumC16(c *lib.Ctx, yield func(c16Case) bool) {
 				return
 			}
 		}
+		// two-level family: k = 4 on ONE line on the cache-over-cache
+		// hierarchies (fetch the line, then a read and a write of different bytes
+		// in flight together, then a re-read): reaches an upper cache installing
+		// a fill that the lower cache served ahead of an earlier-arrived write
+		if len(cfg.Stages) >= 2 && cfg.Memory == "ideal" && cfg.NumMem == 1 && cfg.Lat == 1 && cfg.Eager {
+			if !enumScripts(opAlphabet(lines[:1]), 4, y) {
+				return
+			}
+		}
 		// quick: k = 2 over 3 lines everywhere; k = 3 over 3 lines (enough to
 		// overflow 2 ways) on the cache-bearing assemblies over ideal memory
 		if !enumScripts(alpha3, 2, y) {
@@ -304,7 +313,7 @@ func init() {
 		ID:    "C16",
 		Level: "exploration",
 		Rule: "exhaustive small-scope simulation: assemblies = {none, rob, wb, wt-around, wt-evict, wt-through, wt-*>wb, rob>wb, rob>wt-through>wb, wb>wb} x memory {ideal, banked 1/2 banks} x {1, 2 interleaved controllers} x 3 (port buffer, latency, MSHR) settings x {one-at-a-time, eager} issue, plus 5 DRAM presets x {open, close} x {none, wb}; " +
-			"caches are 2 sets x 2 ways x 64 B with all line addresses forced into one set; workloads = every sequence of k operations over {read4@0, read4@8, read line, write line, write4@0, write4@8, masked line write} x lines (quick: k=2 over 3 lines everywhere, k=3 over 3 lines on cache-bearing assemblies over one ideal memory, k=4 over 2 lines on direct-mapped single caches, and a timed family: every pair of operations on one line with the second delayed by every d in 2..16+6*latency cycles plus a final re-read; thorough: k=2 over 4 lines and k=3 over 3 lines everywhere, k=4 over 2 lines on two-level hierarchies, k=5 over 2 lines on direct-mapped and k=4 over 3 lines on 2-way single caches), run on the real components and SerialEngine; " +
+			"caches are 2 sets x 2 ways x 64 B with all line addresses forced into one set; workloads = every sequence of k operations over {read4@0, read4@8, read line, write line, write4@0, write4@8, masked line write} x lines (quick: k=2 over 3 lines everywhere, k=3 over 3 lines on cache-bearing assemblies over one ideal memory, k=4 over 2 lines on direct-mapped single caches, k=4 on one line on the eager two-level hierarchies over one ideal memory, and a timed family: every pair of operations on one line with the second delayed by every d in 2..16+6*latency cycles plus a final re-read; thorough: k=2 over 4 lines and k=3 over 3 lines everywhere, k=4 over 2 lines on two-level hierarchies, k=5 over 2 lines on direct-mapped and k=4 over 3 lines on 2-way single caches), run on the real components and SerialEngine; " +
 			"oracle = flat byte map (masks honoured) in script order (legal because overlapping requests are never in flight together), exactly one response of the right kind per request addressed to the requester, nothing outstanding at the end. Each (assembly, script) is a distinct case.",
 		Sharded:     true,
 		MinOutcomes: 20,
